@@ -1607,14 +1607,19 @@ func (e *nestEnv) compareArray(path string, a *atree.Array, c *node) bool {
 	}
 	ok := true
 	i := 0
-	_ = a.IterateReadOnly(func(v atree.Value) (bool, error) {
-		if !e.compareValue(fmt.Sprintf("%s[%d]", path, i), v, c.elems[i]) {
+	err := a.IterateReadOnly(func(v atree.Value) (bool, error) {
+		if i >= len(c.elems) || !e.compareValue(fmt.Sprintf("%s[%d]", path, i), v, c.elems[i]) {
 			ok = false
 			return false, nil
 		}
 		i++
 		return true, nil
 	})
+	if ok && (err != nil || i != len(c.elems)) {
+		// (an enumeration that breaks off used to pass for a complete one)
+		e.violation("C10", fmt.Sprintf("%s (container %d): reading the elements through the parent stopped after %d of %d: %v", path, c.h, i, len(c.elems), err))
+		return false
+	}
 	return ok
 }
 
@@ -1636,7 +1641,9 @@ func (e *nestEnv) compareMap(path string, m *atree.OrderedMap, c *node) bool {
 		return false
 	}
 	ok := true
-	_ = m.IterateReadOnly(func(k, v atree.Value) (bool, error) {
+	met := 0
+	err := m.IterateReadOnly(func(k, v atree.Value) (bool, error) {
+		met++
 		kt, _ := k.(hx.TV)
 		want, has := c.kv[kt]
 		if !has {
@@ -1650,6 +1657,10 @@ func (e *nestEnv) compareMap(path string, m *atree.OrderedMap, c *node) bool {
 		}
 		return true, nil
 	})
+	if ok && (err != nil || met != len(c.kv)) {
+		e.violation("C10", fmt.Sprintf("%s (container %d): reading the entries through the parent stopped after %d of %d: %v", path, c.h, met, len(c.kv), err))
+		return false
+	}
 	return ok
 }
 
